@@ -326,12 +326,14 @@ class Interp:
         """fork over the feasible values of a small symbolic integer"""
         if not is_sym(v): return v
         if z3.is_bool(v): return self.ctx.branch(v)
-        m = self.ctx.current_model()
-        for _ in range(limit):
-            val = self.ctx.current_model().eval(v, model_completion=True).as_long()
+        # the candidate values are recorded in the trail (re-execution must ask the same questions in the same order)
+        vals = self.ctx.values_upto(v, limit)
+        if vals is None:
+            raise Inconclusive('concretize: more than %d values' % limit)
+        for val in vals[:-1]:
             if self.ctx.branch(v == val):
                 return val
-        raise Inconclusive('concretize: too many values')
+        return vals[-1]
 
     def char_width(self, c):
         if not is_sym(c):
